@@ -363,6 +363,10 @@ def _gen_func(spec, h, fname, shared=False):
         glb["__T__"]["return"] = types["return"]
         ret = " -> __T__['return']"
     alias = spec.get("arg_alias") or {}  # definition parameter name -> logical name recorded in the call log
+    if "partial" in spec:
+        # the node is built from functools.partial(fn, <value>): a leading positional parameter bound by the partial
+        sig.insert(0, "__pv")
+        params = ["__pv"] + list(params)
     argd = "{" + ", ".join(f"{alias.get(p, p)!r}: {p}" for p in params) + "}"
     nid = spec["id"]
     nid_expr = repr(nid)
@@ -385,6 +389,19 @@ def _gen_func(spec, h, fname, shared=False):
         code = _CODE[src] = compile(src, f"<mc:{nid}>", "exec")
     exec(code, glb)
     return glb[fname]
+
+
+_PARTIALS = {}
+
+
+class _CurrentH:
+    """Forwards node-body calls to the harness of the execution in progress (seams.CURRENT)."""
+
+    def call(self, nid, args):
+        return seams.CURRENT.call(nid, args)
+
+    async def acall(self, nid, args):
+        return await seams.CURRENT.acall(nid, args)
 
 
 def _tuple_or_none(x):
@@ -420,7 +437,18 @@ def build_node(spec, h, funcs=None):
             n = n.map_over(*spec["map_over"], **kw)
     else:
         fkey = spec.get("func_key")
-        fn = _gen_func(spec, h, spec.get("fname", nid), shared=fkey is not None)
+        if "partial" in spec:
+            # the identity of a functools.partial is the OBJECT (its definition hash is address based), as for a
+            # user who keeps one partial around: built once per (node, value) and re-used by every later build; the
+            # wrapped function reports to whichever harness is current
+            import functools
+
+            pk = (nid, repr(spec["partial"]), bool(spec.get("async")))
+            fn = _PARTIALS.get(pk)
+            if fn is None:
+                fn = _PARTIALS[pk] = functools.partial(_gen_func(spec, _CurrentH(), spec.get("fname", nid), shared=fkey is not None), canon(spec["partial"]))
+        else:
+            fn = _gen_func(spec, h, spec.get("fname", nid), shared=fkey is not None)
         common = {}
         if spec.get("emit"):
             common["emit"] = tuple(spec["emit"])
